@@ -24,7 +24,7 @@ ASSUMPTIONS = ["the socket side of the IOWorker is not exercised (bytes are push
 
 NPORTS = 4
 KINDS = ['echo', 'features', 'get_config', 'set_config', 'barrier', 'st_desc', 'st_flow', 'st_aggregate', 'st_table', 'st_port', 'st_queue',
-         'st_vendor', 'st_unknown', 'vendor', 'queue_cfg', 'port_mod', 'flow_mod_bad', 'flow_mod_add', 'packet_out_buf', 'hello', 'short', 'unknown_type']
+         'st_vendor', 'st_unknown', 'vendor', 'queue_cfg', 'port_mod', 'flow_mod_bad', 'flow_mod_add', 'packet_out_buf', 'hello', 'short', 'unknown_type', 'long_stats']
 SHORT_TYPES = [9, 14, 13, 15, 16, 20, 4]      # set_config, flow_mod, packet_out, port_mod, stats_request, queue_get_config, vendor: all longer than a bare header
 
 
@@ -173,6 +173,13 @@ def h_seq(ctx, plan):
     elif kind == 'short':
       # a bare 8-byte header of a type whose body is mandatory: OFPET_BAD_REQUEST / OFPBRC_BAD_LEN carrying the request's xid
       msg = Raw(ctx, SHORT_TYPES[(i + len(plan[0])) % len(SHORT_TYPES)], 8)
+      error(xid, 1, (6,))
+    elif kind == 'long_stats':
+      # a statistics request whose declared (and delivered) length exceeds what its type allows: 4 stray bytes after a well-formed
+      # port / flow / aggregate / queue request body -> OFPET_BAD_REQUEST / OFPBRC_BAD_LEN carrying the request's xid
+      st, body = [(4, [0xff, 0xff] + [0] * 6), (1, list(of.ofp_match().pack()) + [0xff, 0, 0xff, 0xff]), (2, list(of.ofp_match().pack()) + [0xff, 0, 0xff, 0xff]),
+                  (5, [0xff, 0xfc, 0, 0, 0xff, 0xff, 0xff, 0xff])][(i + len(plan[1])) % 4]
+      msg = Raw(ctx, 16, 12 + len(body) + 4, [0, st, 0, 0] + body + [0xde, 0xad, 0xbe, 0xef])
       error(xid, 1, (6,))
     elif kind == 'unknown_type':
       msg = Raw(ctx, ctx.int('utype%d' % i, 22, 255), 8 + 2, [0xaa, 0xbb] if i % 2 else [])
